@@ -65,8 +65,8 @@ Qed.
 (* ---------------------------------------------------------------- the ellipse radius *)
 Section Radius.
   Variable e : ellipse.
-  Hypothesis Hb : 0 < e_minor e.
-  Hypothesis Hab : e_minor e <= e_major e.
+  Variable Hb : 0 < e_minor e.
+  Variable Hab : e_minor e <= e_major e.
 
   Lemma radius_den_bounds t :
     e_minor e * e_minor e
@@ -335,4 +335,38 @@ Proof.
       destruct (ring_outer_pts s k) eqn:F; [|reflexivity].
       unfold ring_outer_pts in F. apply (f_equal (@length _)) in F.
       rewrite map_length, schedule_length in F. discriminate.
+Qed.
+
+(* ---------------------------------------------------------------- the rounded boundary point *)
+Lemma boundary_rounded c theta d :
+  -90 <= lat c <= 90 -> 0 <= d <= PI * Rearth ->
+  exists q, hdist c q = d /\
+    Rabs (lon (dest_rad_rounded c theta d) - lon q) <= / 2 / 10 ^ 7 + / 10 ^ 19 /\
+    Rabs (lat (dest_rad_rounded c theta d) - lat q) <= / 2 / 10 ^ 7 + / 10 ^ 19.
+Proof.
+  intros H1 H2. exists (dest_rad c theta d). split; [apply dest_dist; assumption|].
+  apply dest_rounding.
+Qed.
+
+Lemma PI_gt_3 : 3 < PI.
+Proof. pose proof PI2_3_2. lra. Qed.
+
+Lemma nonvacuous_circle : let s := mkcircle (10, 45) 5000 [] in
+  (-90 < lat (c_center s) < 90) /\ (0 < c_radius s < PI * Rearth) /\
+  hdist (c_center s) (circle_pt s 36 7) = 5000 /\ circle_contains s (circle_pt s 36 7) = true.
+Proof.
+  intros s. pose proof PI_gt_3 as HP.
+  assert (A : -90 <= lat (c_center s) <= 90) by (unfold s, lat; cbn; lra).
+  assert (B : 0 <= c_radius s <= PI * Rearth) by (unfold s, Rearth; cbn; nra).
+  split; [unfold s, lat; cbn; lra|]. split; [unfold s, Rearth; cbn; nra|].
+  split; [apply circle_pt_on_curve; assumption|].
+  apply circle_pt_accepted; try assumption. intros h [].
+Qed.
+
+Lemma radius_at_axes e : 0 < e_minor e -> e_minor e <= e_major e ->
+  radius_at e 0 = e_major e /\ radius_at e (PI / 2) = e_minor e /\
+  (forall t, e_minor e <= radius_at e t <= e_major e).
+Proof.
+  intros Hb Hab. split; [apply radius_at_0; assumption|].
+  split; [apply radius_at_PI2; assumption|]. intros t. apply radius_at_bounds; assumption.
 Qed.
